@@ -451,6 +451,45 @@ Fixpoint walk_members (w : wl) (id : N) (fuel : nat) (start : option N) : result
 Definition q_members (w : wl) (id : N) : result (list (N * N)) :=
   walk_members w id (S (length (w_mem w))) None.
 
+(* StageMemberInfo{stage_id, member} -> (stage_id, is_member, per_address_limit).  The plain
+   kind reads `stages[stage_id]` (panics when there is no such stage) and reports the
+   stage's limit; the flex kind only looks the entry up and reports the stored count (0 when
+   absent) whatever the id.  Merkle has no such query. *)
+Definition member_info := (N * bool * N)%type.
+Definition q_stage_member_info (w : wl) (id : N) (a : N) : result member_info :=
+  match w_kind w with
+  | KMerkle => Err
+  | KPlain =>
+      match stage_at (w_stages w) id with
+      | None => Err
+      | Some (st, s) => Ok (id, mem_has (w_mem w) st a, s_pal s)
+      end
+  | KFlex =>
+      (* no stage lookup: an id beyond the list simply has no entry *)
+      match idx_of id (length (w_stages w)) with
+      | Some st => Ok (id, mem_has (w_mem w) st a, match mem_get (w_mem w) st a with Some v => v | None => 0 end)
+      | None => Ok (id, existsb (fun e => (N.of_nat (me_stage e) =? id) && (me_addr e =? a)) (w_mem w),
+                    fold_right (fun e acc => if (N.of_nat (me_stage e) =? id) && (me_addr e =? a) then me_val e else acc) 0 (w_mem w))
+      end
+  end.
+
+(* AllStageMemberInfo{member}: one entry per existing stage *)
+Fixpoint all_info (w : wl) (a : N) (i : nat) (l : list stage) : list member_info :=
+  match l with
+  | [] => []
+  | s :: r =>
+      (N.of_nat i, mem_has (w_mem w) i a,
+       match w_kind w with
+       | KFlex => match mem_get (w_mem w) i a with Some v => v | None => 0 end
+       | _ => s_pal s
+       end) :: all_info w a (S i) r
+  end.
+Definition q_all_stage_member_info (w : wl) (a : N) : result (list member_info) :=
+  match w_kind w with
+  | KMerkle => Err
+  | _ => Ok (all_info w a 0 (w_stages w))
+  end.
+
 Definition q_active_stage (w : wl) (now : N) : option stage := fetch_active now (w_stages w).
 Definition q_active_stage_id (w : wl) (now : N) : N :=
   match fetch_active_index now (w_stages w) with Some i => N.of_nat i + 1 | None => 0 end.
